@@ -8,7 +8,7 @@ import (
 )
 
 // C11: VP8 packetization is lossless and its descriptor decodes per RFC 7741.
-// opcodes: 1101 enablePictureID pid0(=0) [[mtu frame]...]   one payloader, a history of calls
+// opcodes: 1101 enablePictureID warmup [[mtu frame]...]   one payloader: warmup unrecorded one-byte frames at MTU 10, then a history of calls
 //          1102 [payloads...]                                one VP8Packet receiver
 // The picture id of a fresh payloader is 0; histories long enough to cross 127->128 are generated
 // with tiny frames.
@@ -115,11 +115,16 @@ func vVp8Pkt(p *codecs.VP8Packet) Val {
 		I(int64(p.PictureID)), I(int64(p.TL0PICIDX)), I(int64(p.TID)), I(int64(p.Y)), I(int64(p.KEYIDX)), B(pl))
 }
 
-func runVp8History(enable bool, calls []Tok) Outcome {
+func runVp8History(enable bool, warm int, calls []Tok) Outcome {
 	var o Outcome
 	p := &codecs.VP8Payloader{EnablePictureID: enable}
 	res := VList{}
-	pid := 0
+	// warm-up: that many one-byte frames at MTU 10 whose output is not recorded, so that histories
+	// can start next to the picture id wrap (the field is not settable through the API)
+	for i := 0; i < warm; i++ {
+		p.Payload(10, []byte{1})
+	}
+	pid := warm & 0x7FFF
 	for ci, c := range calls {
 		l := tokList(c)
 		mtu, frame := uint16(tokInt(l[0])), tokBytes(l[1])
@@ -240,6 +245,15 @@ func init() {
 				calls = append(calls, TList{TI(10), TBytes([]byte{byte(i), 1, 2})})
 			}
 			emit(1101, TI(1), TI(0), calls)
+			// next to the 15-bit wrap: 32768 - k warm-up frames, then a short recorded history
+			for _, w := range []int64{120, 32760, 32766, 32767, 32768, 65530} {
+				calls = TList{}
+				for i := 0; i < 12; i++ {
+					calls = append(calls, TList{TI(int64(6 + i%3)), TBytes([]byte{byte(i), 7, 9})})
+				}
+				emit(1101, TI(1), TI(w), calls)
+			}
+			emit(1101, TI(0), TI(32767), calls)
 			if tier == "thorough" {
 				calls = TList{}
 				for i := 0; i < 32770; i++ {
@@ -301,7 +315,7 @@ func init() {
 		Run: func(op int, toks []Tok) Outcome {
 			switch op {
 			case 1101:
-				return runVp8History(tokInt(toks[0]) != 0, tokList(toks[2]))
+				return runVp8History(tokInt(toks[0]) != 0, int(tokInt(toks[1])), tokList(toks[2]))
 			case 1102:
 				var ps [][]byte
 				for _, t := range tokList(toks[0]) {
